@@ -7,7 +7,7 @@
    identifiers and only resolving references is not proved yet - it is tied by the cell-exact correspondence and
    evaluated on the implementation's tables on every run. *)
 From Coq Require Import List Arith.
-From IGP Require Import Base.Str Base.Outcome Model.Tree Model.Link Model.Tabular Proofs.ItoaProof Proofs.IdProof Proofs.RowIds Gen.Wiring.
+From IGP Require Import Base.Str Base.Outcome Model.Tree Model.Link Model.Tabular Proofs.ItoaProof Proofs.IdProof Proofs.RowIds Proofs.RegWf Gen.Wiring.
 Import ListNotations.
 
 (* atomic statements id.1, id.2, ...: different numbers give different identifiers, whatever the user-supplied id *)
@@ -56,6 +56,14 @@ Theorem C06_own_row_ids_distinct : forall C s anno sl rows lms reg sid out reg',
   NoDup (map (fun r => rget r K_ID) out).
 Proof. intros C s anno sl rows lms reg sid out reg' Hs H. exact (proj2 (own_row_ids_distinct tab_T C s anno sl rows lms reg sid out reg' Hs H)). Qed.
 Print Assumptions C06_own_row_ids_distinct.
+
+(* all identifiers that belong to one statement - its own rows id.1 ... id.N and its nested statements {id}.1 ... {id}.K as
+   the row loop registers them - are pairwise different *)
+Theorem C06_statement_ids_distinct : forall C s anno sl rows lms sid out reg', Forall (Forall lref_safe) rows ->
+  rows_loop tab_T C s anno sl rows lms true 0 [] sid [] = Ok (out, reg') ->
+  NoDup (map (fun r => rget r K_ID) out ++ map n_id reg').
+Proof. exact (statement_ids_distinct tab_T). Qed.
+Print Assumptions C06_statement_ids_distinct.
 
 Example C06_example :
   let r0 := new_nested_id [] (KComp FCacC [false]) (Leaf meta0 ENil []) $"7.1" in
